@@ -27,7 +27,7 @@ From Coq Require Import List ZArith NArith QArith Qcanon Bool.
 Import ListNotations.
 Require Import UPV.Core.Expr UPV.Core.Eval UPV.Core.Interp UPV.Planning.Problem UPV.Planning.Sem.
 Require Import UPV.Planning.Temporal UPV.Planning.TTValidate UPV.Walkers.Subst UPV.Compilers.T2SCompile.
-Require Import UPV.Proofs.Temporal_base UPV.Proofs.Temporal_proofs UPV.Proofs.T2SCompile_proofs.
+Require Import UPV.Proofs.Step_proofs UPV.Proofs.Temporal_base UPV.Proofs.Temporal_proofs UPV.Proofs.T2SCompile_proofs.
 Local Open Scope Qc_scope.
 
 (* the simplifier preserves the value of every expression in every interpretation (C11 proves a refinement of this
@@ -244,3 +244,54 @@ Print Assumptions C28_whole_nonvacuous.
 Print Assumptions C28_whole_bounded_types_refuted.
 Print Assumptions C28_whole_empty_duration_refuted.
 Print Assumptions C28_whole_lifted_alias_refuted.
+
+(* ------------------------------------------------------------------ increment (1): the single-step simulation,
+   proved for the sub-fragment WITHOUT start effects ([plain_step]: the durative action has one effect entry, at
+   EndTiming(), of unconditional assignments, and the compiler's output on it has the plain form - a computable
+   check).  [P'] is the compiled problem ([same_base]: it differs from the original base at most in its actions).
+   One compiled step from s_s  =  the durative action executed alone from s_t (= s_s extensionally): every condition
+   the compiler keeps holds in s_t, which is the state in force over the whole closed interval [start, end] because
+   the action's only happening is at its end; the end event applied alone yields the sequential successor. *)
+Theorem C28_whole_step_no_start_effects :
+  forall sc smp, smp_ok sc smp ->
+  forall (P P' : problem), same_base P P' ->
+  forall d a' args (s_s s_t s_s' : state) (x : src) t,
+    plain_step smp d a' = true -> a_params a' = d_params d ->
+    state_eq s_t s_s -> spec_step sc P' s_s a' args = Some s_s' ->
+    exists l, only_end_effs d = Some l /\
+      (forall ic c, In ic (d_conds d) -> In c (snd ic) ->
+         (is_start0 (ti_lo (fst ic)) && negb (ti_lopen (fst ic)) = true \/ is_end0 (ti_hi (fst ic)) = true) ->
+         holds sc (mk_interp P s_t (zip_params (d_params d) args)) c = true) /\
+      exists s_t', ref_apply sc P s_t [ {| ev_time := t; ev_src := x; ev_bind := zip_params (d_params d) args;
+                                           ev_effs := l |} ] = Some s_t' /\ state_eq s_t' s_s'.
+Proof. exact step_no_start_effects. Qed.
+Print Assumptions C28_whole_step_no_start_effects.
+
+(* the plan-level statement for that sub-fragment (composition of the per-step runs into [run_times], goals in the
+   final state): NOT proved yet *)
+Definition C28_whole_plan_no_start_read_goal : Prop :=
+  forall sc smp (TP : tproblem) (P' : problem) (eps : Qc) (s0 : state) (pi : list (N * list value)) (tpl : tplan),
+    smp_ok sc smp -> no_start_fragment smp TP = true -> bound_invs (tp_base TP) = [] ->
+    t2s_problem smp TP = Some P' -> zq 0 < eps ->
+    valid_plan sc P' s0 pi = true -> back_plan sc TP P' eps (zq 0) s0 pi = Some tpl ->
+    nonempty_along sc TP P' s0 pi -> positive_durations tpl ->
+    tt_valid sc TP s0 tpl.
+
+(* --- E: non-vacuity of the step theorem: a(duration 2): over [start, end] not g, at end n := 5 *)
+Definition exE_d : daction :=
+  {| d_params := []; d_lo := EInt 2; d_hi := EInt 2; d_lopen := false; d_ropen := false;
+     d_conds := [ ({| ti_lo := st0; ti_hi := en0; ti_lopen := false; ti_ropen := false |}, [ENot exg]) ];
+     d_effs := [ (en0, [mkeff 0 [] (EInt 5) KAssign false]) ] |}.
+Definition exE_TP : tproblem := {| tp_base := exA_base; tp_dur := [(0%N, exE_d)]; tp_teffs := []; tp_tgoals := [] |}.
+Definition exE_act : action :=
+  {| a_params := []; a_pre := [ENot exg]; a_effs := [mkeff 0 [] (EInt 5) KAssign false] |}.
+
+Example C28_whole_step_nonvacuous :
+  no_start_fragment idsmp exE_TP = true /\ t2s_action idsmp exE_d = Some exE_act /\
+  plain_step idsmp exE_d exE_act = true /\ same_base exA_base (compiled exE_TP) /\
+  match spec_step true (compiled exE_TP) exA_s0 exE_act [] with Some _ => true | None => false end = true.
+Proof.
+  split; [vm_compute; reflexivity|]. split; [vm_compute; reflexivity|]. split; [vm_compute; reflexivity|].
+  split; [repeat split; reflexivity | vm_compute; reflexivity].
+Qed.
+Print Assumptions C28_whole_step_nonvacuous.
